@@ -15,6 +15,8 @@ func checkC07(c *Ctx) {
 	r := c.R
 	r.Rule("R07.1", "source order: on every path of collectArgs the per-call slice receives context values, then the logger chain, then the call's own arguments (call order fromCtx < walkParentAttrs < argsToAttrs on the same slice)")
 	r.Rule("R07.2", "ancestors first, iff the flag: the decision functions extracted from collectArgs and walkParentAttrs over {logger has own attrs, inherit flag, owner != nil, ...} say: the chain is walked whenever the flag is on or the logger has attributes; inside the walk the recursive visit of the owner happens exactly when flag and owner != nil, before this logger's own attributes are appended, and emptiness of a logger's own list never cuts the walk when the flag is on")
+	r.Rule("R08.1", "(shared with C08) the attributes of a record are those of this call: nothing on the print path writes memory that outlives the call other than the pooled objects of this call (a logger-held attribute slot reused across records would let one record show another record's context values)")
+	r.Rule("R08.2", "(shared with C08) attribute lists and attribute objects belong to their owners: no in-place reordering or appending into a shared list, no mutating call on an attribute object shared with a logger")
 	r.Rule("R07.3", "last occurrence wins: the sort applied before de-duplication is a stable sort; its comparator and the de-duplication equality read only Key() (and nil-ness); dedupeSlice overwrites the kept slot with the later element of an equal run and returns the prefix")
 	r.Rule("R07.4", "every level sorted: serializeAttrs is the one member-list emitter, it sorts unconditionally (the switch is a constructor constant true), de-duplicates the sorted slice and ranges over the result; groups recurse into it")
 	r.Rule("R07.5", "nil context: the context handed to the attribute collection is never nil (replaced by context.TODO/Background before use); context values are taken for the logger's registered keys under their string / Stringer key")
@@ -31,6 +33,7 @@ func checkC07(c *Ctx) {
 			continue
 		}
 		c07Collect(c, p, m)
+		c08Stores(c, p, m)
 		c07Sort(c, p, m)
 		c10Frames(c, p, m)
 		contextKeysRegistered(c, p)
@@ -672,6 +675,7 @@ func c07Sort(c *Ctx, p *Prog, m *Model) {
 			}
 		}
 		r.Check(asc, "R07.3", "comparator:ascending", p.FuncPos(cmpFn), "negative result exactly when a.Key() < b.Key()", "the comparator does not order by ascending key (a.Key() < b.Key() must give a negative result)")
+		comparatorTable(c, p, cmpFn)
 	}
 	// order and data flow: sort precedes dedupe; dedupe gets the sorted slice; the loop ranges over the result
 	if sortCall != nil && dedupeCall != nil {
@@ -1012,4 +1016,135 @@ func startsAt(v ssa.Value, c int64) bool {
 		}
 	}
 	return false
+}
+
+
+// comparatorTable: the sort's comparator, read as a decision function over {a is nil, b is nil, the relation of the
+// two keys}, is a consistent three-way order: 0 for two nils, opposite non-zero results for the two one-nil rows,
+// and the sign of the key relation otherwise. A comparator that answers "equal" for a nil against anything is not
+// transitive: a stable sort then leaves the keys around a nil placeholder unsorted.
+func comparatorTable(c *Ctx, p *Prog, fn *ssa.Function) {
+	r := c.R
+	if len(fn.Params) < 2 {
+		return
+	}
+	a, b := fn.Params[len(fn.Params)-2], fn.Params[len(fn.Params)-1]
+	keyRel := func(x, y ssa.Value) int { // 1: (a,b), -1: (b,a), 0: neither
+		switch {
+		case isKeyOf(x, a) && isKeyOf(y, b):
+			return 1
+		case isKeyOf(x, b) && isKeyOf(y, a):
+			return -1
+		}
+		return 0
+	}
+	atomize := func(cond ssa.Value) (string, bool) {
+		bo, ok := cond.(*ssa.BinOp)
+		if !ok {
+			return "", false
+		}
+		if isNilConst(bo.Y) || isNilConst(bo.X) {
+			v := bo.X
+			if isNilConst(bo.X) {
+				v = bo.Y
+			}
+			who := ""
+			switch strip(v) {
+			case ssa.Value(a):
+				who = "a"
+			case ssa.Value(b):
+				who = "b"
+			default:
+				return "", false
+			}
+			switch bo.Op {
+			case token.EQL:
+				return who + "=nil", true
+			case token.NEQ:
+				return who + "!=nil", true
+			}
+			return "", false
+		}
+		d := keyRel(bo.X, bo.Y)
+		if d == 0 {
+			return "", false
+		}
+		op := bo.Op
+		if d < 0 {
+			switch op {
+			case token.LSS:
+				op = token.GTR
+			case token.GTR:
+				op = token.LSS
+			case token.LEQ:
+				op = token.GEQ
+			case token.GEQ:
+				op = token.LEQ
+			}
+		}
+		return "k" + op.String(), true
+	}
+	sign := func(v int64) int {
+		switch {
+		case v < 0:
+			return -1
+		case v > 0:
+			return 1
+		}
+		return 0
+	}
+	type row struct {
+		an, bn bool
+		rel    int
+	}
+	eval := func(rw row) (int, string) {
+		as := map[string]bool{"a=nil": rw.an, "a!=nil": !rw.an, "b=nil": rw.bn, "b!=nil": !rw.bn,
+			"k<": rw.rel < 0, "k==": rw.rel == 0, "k>": rw.rel > 0, "k<=": rw.rel <= 0, "k>=": rw.rel >= 0, "k!=": rw.rel != 0}
+		t := walkDecision(fn.Blocks[0], as, atomize, nil)
+		if t.Kind != "return" {
+			return 0, t.Kind
+		}
+		for _, cs := range t.Calls {
+			if invokeName(cs) == "Key" {
+				if (cs.Common().Value == ssa.Value(a) && rw.an) || (cs.Common().Value == ssa.Value(b) && rw.bn) {
+					return 0, "Key() is called on a nil attribute"
+				}
+			}
+		}
+		rv := resolveAlong(t.Instr.(*ssa.Return).Results[0], t.Path)
+		if v, ok := constInt(rv); ok {
+			return sign(v), ""
+		}
+		if call, ok := rv.(*ssa.Call); ok {
+			if cal := calleeOf(call); cal != nil && (origin(cal).String() == "cmp.Compare" || origin(cal).String() == "strings.Compare") {
+				if d := keyRel(call.Common().Args[0], call.Common().Args[1]); d != 0 {
+					return d * rw.rel, ""
+				}
+			}
+		}
+		return 0, "result not recognised: " + rv.String()
+	}
+	var probs []string
+	get := func(rw row, name string) (int, bool) {
+		v, why := eval(rw)
+		if why != "" {
+			probs = append(probs, name+": "+why)
+			return 0, false
+		}
+		return v, true
+	}
+	if v, ok := get(row{true, true, 0}, "both nil"); ok && v != 0 {
+		probs = append(probs, fmt.Sprintf("two nil placeholders compare as %d, not equal", v))
+	}
+	v1, ok1 := get(row{true, false, 0}, "a nil")
+	v2, ok2 := get(row{false, true, 0}, "b nil")
+	if ok1 && ok2 && !(v1 != 0 && v2 == -v1) {
+		probs = append(probs, fmt.Sprintf("a nil placeholder against an attribute gives %d and the reverse gives %d: they must be opposite and non-zero, otherwise 'equal to nil' links keys that are not equal and the stable sort leaves the keys on either side of a placeholder unsorted", v1, v2))
+	}
+	for _, rel := range []int{-1, 0, 1} {
+		if v, ok := get(row{false, false, rel}, fmt.Sprintf("keys related %d", rel)); ok && v != rel {
+			probs = append(probs, fmt.Sprintf("for keys with a.Key() %s b.Key() the comparator answers %d", map[int]string{-1: "<", 0: "==", 1: ">"}[rel], v))
+		}
+	}
+	r.Check(len(probs) == 0, "R07.3", "comparator:table", p.FuncPos(fn), "a consistent three-way order over {nil, nil}, {nil, attribute} and the key relation (6 rows)", "the sort's comparator is not a consistent order: "+strings.Join(probs, "; "))
 }
